@@ -204,6 +204,32 @@ def handle (j : Json) : P Json := do
     let mut outT : AL (AL TypeCompat.Ty) := []
     for nj in nodesJ.toList do
       let nm ← str (← field nj "name")
+      -- a nested-graph node exposes the annotations of its inner graph's nodes under its own (renamed) port names
+      if (← str (fieldD nj "kind" (.str "fn"))) == "graph" then
+        let innerJ := specsJ.toList.getD (← nat (← field nj "inner")) (Json.mkObj [])
+        let wIn ← pairs str (fieldD nj "inRen" (.arr #[]))
+        let wOut ← pairs str (fieldD nj "outRen" (.arr #[]))
+        let mut ins : AL TypeCompat.Ty := []
+        let mut outs : AL TypeCompat.Ty := []
+        for ij in (← arr (fieldD innerJ "nodes" (.arr #[]))).toList do
+          match ij.getObjVal? "ann" with
+          | .error _ => pure ()
+          | .ok ann =>
+            let ren ← pairs str (fieldD ij "inRen" (.arr #[]))
+            for p in (← list param (fieldD ij "params" (.arr #[]))) do
+              match ann.getObjVal? p.1 with
+              | .ok t =>
+                let innerName := (AL.get? ren p.1).getD p.1
+                ins := ins ++ [((AL.get? wIn innerName).getD innerName, ← tyOfJson t)]
+              | .error _ => pure ()
+            match ann.getObjVal? "return" with
+            | .ok t =>
+              let ty ← tyOfJson t
+              for o in (← list str (fieldD ij "dataOuts" (.arr #[]))) do
+                outs := outs ++ [((AL.get? wOut o).getD o, ty)]
+            | .error _ => pure ()
+        inT := inT ++ [(nm, ins)]
+        outT := outT ++ [(nm, outs)]
       match nj.getObjVal? "ann" with
       | .error _ => pure ()
       | .ok ann =>
